@@ -1071,13 +1071,34 @@ pub enum AppearanceStreamEntry {
     Single(FormXObject),
     Dict(HashMap<Name, AppearanceStreamEntry>)
 }
-impl Object for AppearanceStreamEntry {
-    fn from_primitive(p: Primitive, resolve: &impl Resolve) -> Result<Self> {
+impl AppearanceStreamEntry {
+    fn from_primitive_depth(p: Primitive, resolve: &impl Resolve, depth: usize) -> Result<Self> {
         match p.resolve(resolve)? {
-            p @ Primitive::Dictionary(_) => Object::from_primitive(p, resolve).map(AppearanceStreamEntry::Dict),
+            Primitive::Dictionary(dict) => {
+                // (a dictionary of states may contain dictionaries again, and a file can make one contain itself)
+                if depth == 0 {
+                    bail!("appearance dictionaries nested too deep");
+                }
+                let mut map = HashMap::new();
+                for (key, val) in dict.iter() {
+                    match Self::from_primitive_depth(val.clone(), resolve, depth - 1) {
+                        Ok(v) => { map.insert(key.clone(), v); }
+                        // a value that refers to a missing object is null: the entry is absent
+                        Err(ref e) if is_missing_reference(val, e) => {}
+                        Err(e) => return Err(e)
+                    }
+                }
+                Ok(AppearanceStreamEntry::Dict(map))
+            }
             p @ Primitive::Stream(_) => Object::from_primitive(p, resolve).map(AppearanceStreamEntry::Single),
             p => Err(PdfError::UnexpectedPrimitive {expected: "Dict or Stream", found: p.get_debug_name()})
         }
+    }
+}
+impl Object for AppearanceStreamEntry {
+    fn from_primitive(p: Primitive, resolve: &impl Resolve) -> Result<Self> {
+        // (the specification has one level: the states of an appearance subdictionary are streams)
+        Self::from_primitive_depth(p, resolve, 2)
     }
 }
 impl ObjectWrite for AppearanceStreamEntry {
